@@ -84,12 +84,17 @@ def run_coq(ctx, name, col):
     return bad
 
 
-def stage_traces(ctx):
-    n = 420 if ctx.tier == 'thorough' else 64
+def stage_traces(ctx, race=False):
+    """race=False: clocks that stand still inside every synchronous call (ticks in between);
+    race=True: writes during which the two clock readings of send_packet differ"""
+    if race:
+        n = 40 if ctx.tier == 'thorough' else 8
+    else:
+        n = 420 if ctx.tier == 'thorough' else 64
     col = Collector()
     stats = {'exchanges': 0, 'keyed': 0, 'hostile': 0, 'race_steps': 0, 'both': 0, 'sessions': 0}
     for i in range(n):
-        sc = c11_scen.gen_script(ctx.rng, ctx.tier == 'thorough')
+        sc = c11_scen.gen_script(ctx.rng, ctx.tier == 'thorough', race=race)
         rp = {'kind': 'trace', 'script': sc}
         try:
             r = sshutil.run(c11_scen.run_script(sc), timeout=120)
@@ -99,8 +104,12 @@ def stage_traces(ctx):
                 break
             continue
         judge_script(ctx, r, rp, col, stats, i)
-    run_coq(ctx, 'trace', col)
-    ctx.cov['oracle']['trace'] = stats
+    run_coq(ctx, 'race' if race else 'trace', col)
+    ctx.cov['oracle']['race' if race else 'trace'] = stats
+    if race:
+        if stats['race_steps'] < n:
+            ctx.broke('vacuity:race', 'too few raced writes generated')
+        return
     if stats['exchanges'] < 2 * n:
         ctx.broke('vacuity:rekeys', f'only {stats["exchanges"]} completed exchanges in {n} sessions')
     if stats['keyed'] == 0:
@@ -263,6 +272,7 @@ def run(ctx):
     stage_traces(ctx)
     stage_busy(ctx)
     stage_mini(ctx)
+    stage_traces(ctx, race=True)        # last: its (single, known) class of failing inputs must not crowd out others
 
 
 def replay(rp):
